@@ -58,6 +58,8 @@ def main():
         m = json.load(open(mp))
         m["confirmed"] = {"how": "tools_round.py in the producing agent's scratch worktree", "result": info}
         json.dump(m, open(mp, "w"), indent=1)
+        if len(sys.argv) > 3 and sys.argv[3] == "norun":
+            continue
         r = subprocess.run([f"{HERE}/tools_seeded.py", "run", name], capture_output=True, text=True, timeout=3600)
         print("  " + "\n  ".join(l[:230] for l in r.stdout.splitlines()[:3]))
 
